@@ -26,6 +26,11 @@ class SimCancelled(BaseException):
     """Asynchronous cancellation injected at a chosen line of a chosen call."""
 
 
+class StepCapExceeded(BaseException):
+    """The threaded phase of a run executed more line events than the cap (>= 90 x the largest run of the
+    unchanged tree): raised in every client at its next line event so that no thread spins for ever."""
+
+
 class ClientCtx:
     def __init__(self, idx):
         self.idx = idx
@@ -102,6 +107,7 @@ class Scheduler:
             self._pass(c, succ, frame)
         if self.steps > self.step_cap:
             self.aborted = True
+            raise StepCapExceeded(self.steps)
         return self._local
 
     def _pass(self, c, succ, frame):
